@@ -116,7 +116,9 @@ def _pathops(ck, binary, name, maxseg, neg, pos, maxcount, rescodes):
         first = _parse(out, "FAIL")
         sc = first["scenario"]
         rp = ck.replay_file("case-%s.ndjson" % name, json.dumps({k: sc[k] for k in ("op", "a", "p", "exp")}) + "\n")
-        ck.violation("pathops:%s:%s" % (sc["op"], _slug(first["why"])),
+        clause, _, what = first["why"].partition("|")
+        first["why"] = what or clause
+        ck.violation("pathops:%s:%s" % (sc["op"], clause),
                      "%d of %d densification cases break the contract on the real PathGeometric; first: %s on path %s args %s "
                      "gave %s: %s" % (summ["failures"], summ["scenarios"], sc["op"], sc["p"], sc["a"], sc.get("got"), first["why"]), rp)
     else:
@@ -209,6 +211,14 @@ def _stats(ck, evs, rejected, tier):
             c["n<3"] += e["nBefore"] < 3
             c["returned_false"] += not e["ret"]
             c["library_check_false_after"] += not e["checkAfter"]
+            if n == "simplify":
+                p = e.get("p") or {}
+                if p.get("ptcAfter", 10 ** 9) < 10 ** 6:
+                    c["interrupted"] += 1
+                    c["interrupted_and_returned_false"] += not e["ret"]
+            if n == "perturbPath":
+                c["single_state_path"] += e["nBefore"] == 1
+                c["snap_threshold_0"] += (e.get("p") or {}).get("snapPm") == 0
         elif n == "HybridStart":
             best = None
             hyb["sessions"] += 1
@@ -221,8 +231,6 @@ def _stats(ck, evs, rejected, tier):
             hyb["computed"] += 1
             if e["has"] and best is not None:
                 hyb["strictly_better_than_best_input"] += e["cost"] < best - 2
-        elif n == "Crash":
-            hyb["crash_events"] += 0
     ck.set("reports_per_routine", {k: dict(v) for k, v in per.items()})
     ck.set("hybridization", dict(hyb))
     ck.set("input_paths", dict(srcs))
@@ -241,6 +249,10 @@ def _stats(ck, evs, rejected, tier):
     for r in ("partialShortcutPath", "ropeShortcutPath", "perturbPath", "findBetterGoal"):
         if per[r]["cheaper"] == 0:
             raise FrameworkError("vacuity gate: %s never lowered a cost" % r)
+    if per["simplify"]["interrupted"] == 0 or per["perturbPath"]["single_state_path"] == 0 \
+            or per["perturbPath"]["snap_threshold_0"] == 0:
+        raise FrameworkError("vacuity gate: no interrupted simplify / no perturbPath on a single state / with snap "
+                             "threshold 0: %s %s" % (dict(per["simplify"]), dict(per["perturbPath"])))
     if hyb["computed"] == 0 or hyb["strictly_better_than_best_input"] == 0 or hyb["duplicates"] == 0:
         raise FrameworkError("vacuity gate: hybridization never improved on its inputs / never saw a duplicate: %s" % dict(hyb))
     need = ["circles/rrtconnect", "circles/rrt", "circles/prm", "circles/stored", "circles/zigzag", "env1/rrtconnect",
